@@ -902,6 +902,54 @@ def check_close_not_behind_activation(eng, run):
     run.ob("C18.order", f"{sc.short}:cancel-reachable-during-activation", not bad, held_by_activation=sorted(held_in_activation))
 
 
+def check_portal_cancel_reaches_thread_as_cancellation(eng, run):
+    """a coroutine scheduled from another thread (shutdown(), server_close() of the standalone servers) that is cancelled with the
+    portal hands a *cancelled* future to the waiting thread: `concurrent.futures.CancelledError` is what those callers absorb (serving
+    has stopped, there is nothing left to wait for).  Forwarding the asyncio.CancelledError instance with set_exception() makes
+    shutdown() / NetworkServerThread.join() raise instead of returning."""
+    ci = eng.db.cls("lowlevel.api_async.backend._asyncio.threads.ThreadsPortal")
+    rc = _meth(ci, "run_coroutine_soon")
+    n = 0
+    for t in [x for x in ast.walk(rc.node) if isinstance(x, ast.Try)]:
+        for h in t.handlers:
+            if h.type is None or "CancelledError" not in ast.unparse(h.type):
+                continue
+            n += 1
+            calls = [c for b in h.body for c in ast.walk(b) if isinstance(c, ast.Call) and isinstance(c.func, ast.Attribute)]
+            cancels = any(c.func.attr == "cancel" for c in calls)
+            forwards = [c for c in calls if c.func.attr in ("set_exception", "set_result")]
+            ok = cancels and not forwards
+            if not ok:
+                run.finding("C18.portal", rc, (forwards[0] if forwards else h), "the cancellation of a coroutine scheduled from another thread is not handed to the waiting thread as a cancelled future "
+                            "(future.cancel()): shutdown() / server_close() / join() of a standalone server raise asyncio.CancelledError instead of returning once serving has stopped")
+            run.ob("C18.portal", f"{rc.short}:cancelled-coroutine-cancels-the-thread-future", ok)
+    if n == 0:
+        raise AnalysisError("anchor vanished: CancelledError arm of ThreadsPortal.run_coroutine_soon")
+
+
+def check_every_listener_closed(eng, run):
+    """server_close() has already forgotten the listeners when it closes them: the helper that closes a list of listeners gives each
+    one its own task (task group + start_soon), so that a close that fails or is cancelled does not leave the *other* listeners
+    bound - a sequential `for ...: await close(server)` stops at the first interruption and a retried server_close() has nothing
+    left to close."""
+    aa = eng.db.cls(f"{BASE}.BaseAsyncNetworkServerImpl")
+    fn = _meth(aa, "__close_all_servers")
+    loops = [x for x in own_nodes(fn.node) if isinstance(x, (ast.For, ast.AsyncFor))]
+    if not loops:
+        raise AnalysisError("anchor vanished: loop over the listeners in __close_all_servers")
+    bad = []
+    for lp in loops:
+        for x in ast.walk(lp):
+            if isinstance(x, ast.Await):
+                bad.append(x)
+    spawns = [c for lp in loops for c in ast.walk(lp) if isinstance(c, ast.Call) and isinstance(c.func, ast.Attribute) and c.func.attr == "start_soon"]
+    ok = not bad and bool(spawns)
+    if not ok:
+        run.finding("C18.tear", fn, _stmt_at(fn, (bad[0] if bad else loops[0]).lineno), "the listeners are closed one after the other in the calling task: a close that is cancelled or fails leaves the remaining "
+                    "listeners open and bound although server_close() has dropped them - a later server_close() returns normally with sockets still listening")
+    run.ob("C18.tear", f"{fn.short}:one-task-per-listener", ok, spawns=len(spawns))
+
+
 def run(eng, run):
     from sa.anchors import verify as _verify_anchor_names
     _verify_anchor_names(eng, run)
@@ -918,6 +966,8 @@ def run(eng, run):
     run.attempt(check_shared_future_awaits, eng, run, "C18.tear")
     run.attempt(check_tear, eng, run)
     run.attempt(check_portal, eng, run)
+    run.attempt(check_portal_cancel_reaches_thread_as_cancellation, eng, run)
+    run.attempt(check_every_listener_closed, eng, run)
     run.attempt(check_join_shuts_down, eng, run)
     run.attempt(check_default_after_running_test, eng, run)
     run.attempt(check_scope_withdrawn, eng, run)
